@@ -37,6 +37,7 @@ vars == <<classes, open, phase, fi, constructorCount, longest, list, mi, merged,
 
 ShapesQuick == [ctor : BOOLEAN, params : {0, 4, 5, 6}, calls : {0, 8, 9}, span : {2, 3}]
 ShapesTiny  == [ctor : BOOLEAN, params : {2, 5}, calls : {9}, span : {3}]
+ShapesFour  == [ctor : BOOLEAN, params : {4, 5}, calls : {8, 9}, span : {2, 3}]
 ShapesWide  == [ctor : BOOLEAN, params : {0, 1, 4, 5, 6}, calls : {0, 4, 5, 8, 9, 10}, span : {0, 2, 3, 4}]
 
 Cur == classes[Len(classes)]
